@@ -1,1 +1,207 @@
-/-! Property theorems for C12 (stub: not built yet). -/
+import Usual.C12.Spec
+import UsualProofs.C12.StepRefine
+import UsualProofs.C12.Counter
+/-!
+# C12 — MBuf never reads or writes outside its data, whatever lengths are requested
+
+Model: `Usual.C12` (lean/Usual/C12/MBuf.lean) — `usual/mbuf.h` + `usual/mbuf.c` **with fixes
+F01, F01b, F01c**, 32-bit cursors, every function returns its memory accesses.
+Predicates: lean/Usual/C12/Spec.lean.  An `Op` carries *any* `UInt32` length / offset and any
+realloc oracle; a history is any `List Op` over any slots.
+
+The statements are false for the unchanged tree; the `…_old_counterexample` theorems give
+the witnesses (kernel-evaluated) for the comparisons as they were.
+-/
+namespace UsualProps.C12
+open Usual.C12 UsualProofs.C12
+
+/-! ## invariant: `read_pos ≤ write_pos ≤ alloc_len = |data|`, reader ⇒ fixed ∧ full -/
+
+theorem inv_init : AllInv State.init :=
+  fun _ => (inv_iff _).mpr good_initDynamic
+
+example : inv (State.init 3) = true := inv_init 3
+
+/-- every call, with any arguments, preserves the invariant of every slot -/
+theorem inv_step (s : State) (op : Op) (h : AllInv s) : AllInv (step s op).1 :=
+  inv_step' h op
+
+example : AllInv (step State.init (.fill 0 7 0xFFFFFFFF (fun _ => true))).1 :=
+  inv_step _ _ inv_init
+example : (step State.init (.fill 0 7 100 (fun _ => true))).2.ok = true := by decide
+
+/-- … hence along every history -/
+theorem inv_run (ops : List Op) : ∀ (s : State), AllInv s → AllInv (run s ops).1 := by
+  induction ops with
+  | nil => intro s h; exact h
+  | cons op rest ih => intro s h; exact ih _ (inv_step s op h)
+
+example : AllInv (run State.init [.initWriter 1 4 (fun _ => 0), .write 1 (fun _ => 9) 0xFFFFFFFE (fun _ => true),
+    .cut 1 5 0xFFFFFFFD, .getBytes 1 0xFFFFFFFF]).1 := inv_run _ _ inv_init
+
+/-! ## safety of every access -/
+
+/-- Under the invariant every access of a call is inside the buffer it touches: reads inside
+the written region `[0, write_pos)` of the buffer as it was when the call started, writes
+inside `[0, alloc_len)` of the buffer as it is when the call returns and never (non-empty) on a
+reader; a fixed buffer keeps `alloc_len`/`|data|`, a reader also its bytes and `write_pos`
+(unless the call re-initialises that slot). -/
+theorem safe_step (s : State) (op : Op) (h : AllInv s) : StepSafe s op :=
+  safe_step' h op
+
+example : StepSafe (step State.init (.initReader 0 10 (fun k => UInt8.ofNat k))).1
+    (.getBytes 0 0xFFFFFFFF) :=
+  safe_step _ _ (inv_step _ _ inv_init)
+-- the hypothesis is met by a state in which the call does something
+example : (step (step State.init (.initReader 0 10 (fun k => UInt8.ofNat k))).1 (.getBytes 0 7)).2.acc
+    = [(0, ⟨.rd, 0, 7⟩)] := by decide
+
+/-- a property of single steps that follows from the invariant holds along every history -/
+theorem along_run (P : State → Op → Prop) (hP : ∀ s op, AllInv s → P s op) (ops : List Op) :
+    ∀ (s : State), AllInv s → AlongRun P s ops := by
+  induction ops with
+  | nil => intro _ _; trivial
+  | cons op rest ih => intro s h; exact ⟨hP s op h, ih _ (inv_step s op h)⟩
+
+/-- through any sequence of operations, starting from freshly initialised buffers, no access
+is ever outside the data -/
+theorem safe_run (ops : List Op) (s : State) (h : AllInv s) : AlongRun StepSafe s ops :=
+  along_run StepSafe safe_step ops s h
+
+example : AlongRun StepSafe State.init
+    [.initWriter 0 10 (fun _ => 0), .writeByte 0 65 (fun _ => true), .fill 0 0 0xFFFFFFFF (fun _ => true),
+     .cut 0 5 0xFFFFFFFD, .makeRoom 0 0x80000001 (fun _ => true)] :=
+  safe_run _ _ inv_init
+
+/-! ## a call that returns false changes nothing -/
+
+/-- whole records are equal: both cursors, `alloc_len`, flags and every data byte -/
+theorem false_unchanged_step (s : State) (op : Op) (h : AllInv s) : StepUnchanged s op :=
+  unchanged_step' h op
+
+theorem false_unchanged_run (ops : List Op) (s : State) (h : AllInv s) : AlongRun StepUnchanged s ops :=
+  along_run StepUnchanged false_unchanged_step ops s h
+
+-- a failing multi-byte getter on a state where it has to roll back: 6 bytes, get_uint64be
+example : (step (step State.init (.initReader 0 6 (fun k => UInt8.ofNat k))).1 (.getU64 0)).2.ok = false := by
+  decide
+example : (step (step State.init (.initReader 0 6 (fun k => UInt8.ofNat k))).1 (.getU64 0)).1 0 =
+    (step State.init (.initReader 0 6 (fun k => UInt8.ofNat k))).1 0 :=
+  false_unchanged_step _ _ (inv_step _ _ inv_init) (by decide) 0
+
+/-! ## the bytes read back are the bytes written, in order -/
+
+/-- Seen as byte vectors with a read cursor (`abs`), a successful call is the vector
+operation `specStep` (append for the writers, consume-from-cursor for the readers, splice for
+`cut`, …), the bytes it delivers are `specBytes` (the next unread bytes, in order), the integer
+getters deliver their big-endian value (`specVal`), a failing call changes no vector and
+delivers nothing, and the readers / `mbuf_eq` / `mbuf_cut` return exactly `specRet`
+(e.g. `get_bytes(len)` succeeds iff `len ≤ unread`). -/
+theorem refines_vector_step (s : State) (op : Op) (h : AllInv s) : StepRefines s op :=
+  refines_step' h op
+
+theorem refines_vector_run (ops : List Op) (s : State) (h : AllInv s) : AlongRun StepRefines s ops :=
+  along_run StepRefines refines_vector_step ops s h
+
+example : (step (step State.init (.initReader 0 4 (fun k => UInt8.ofNat (k + 1)))).1 (.getU32 0)).2.val
+    = 0x01020304 := by decide
+
+/-- first-in first-out: what `mbuf_write` appended to an empty buffer is what `mbuf_get_bytes`
+of the same length returns, whatever the 32-bit length and the realloc behaviour -/
+theorem read_back_what_was_written (s : State) (h : AllInv s) (i : Nat) (src : Nat → UInt8)
+    (len : UInt32) (ora : UInt32 → Bool) (hempty : abs (s i) = Vec.empty)
+    (hw : (step s (.write i src len ora)).2.ok = true) :
+    (step (step s (.write i src len ora)).1 (.getBytes i len)).2.ok = true ∧
+    (step (step s (.write i src len ora)).1 (.getBytes i len)).2.bytes = srcBytes src len.toNat := by
+  have r1 := (refines_vector_step s (.write i src len ora) h).1 hw
+  have h1 := inv_step s (.write i src len ora) h
+  have r2 := refines_vector_step (step s (.write i src len ora)).1 (.getBytes i len) h1
+  have e1 : absS (step s (.write i src len ora)).1 = specStep (absS s) (.write i src len ora) := r1.1
+  have ev : absS (step s (.write i src len ora)).1 i = ⟨srcBytes src len.toNat, 0, false⟩ := by
+    rw [e1]
+    simp only [specStep, VState.set, ↓reduceIte]
+    show (abs (s i)).append _ = _
+    rw [hempty]
+    simp [Vec.empty, Vec.append]
+  have hok : (step (step s (.write i src len ora)).1 (.getBytes i len)).2.ok = true := by
+    apply r2.2.2
+    simp only [specRet, ev, Vec.unread, List.drop_zero, length_srcBytes, Nat.le_refl, decide_true]
+  refine ⟨hok, ?_⟩
+  rw [(r2.1 hok).2.1]
+  simp only [specBytes, ev, Vec.get, Vec.unread, List.drop_zero]
+  exact List.take_of_length_le (by rw [length_srcBytes]; exact Nat.le_refl _)
+
+example : (step (step State.init (.write 0 (fun k => UInt8.ofNat (k + 65)) 3 (fun _ => true))).1
+    (.getBytes 0 3)).2.bytes = [65, 66, 67] :=
+  (read_back_what_was_written State.init inv_init 0 _ 3 _ (by decide) (by decide)).2
+
+/-! ## termination of the repaired doubling loop -/
+
+/-- 33 iterations are enough whatever the request: the loop of the repaired `mbuf_make_room`
+either refuses (`none`) or returns a size that is at least the request and at least the old
+size (in particular it never returns the "out of fuel" marker 0 for a non-empty request) -/
+theorem make_room_loop_terminates (na need r : UInt32) (h : na ≠ 0)
+    (hr : grow 33 na need = some r) : need ≤ r ∧ na ≤ r := by
+  have hn : na.toNat ≠ 0 := fun e => h (UInt32.toNat_inj.mp (by rw [e]; rfl))
+  have := grow_spec 33 na need r hn (by omega) hr
+  exact ⟨UInt32.le_iff_toNat_le.mpr this.1, UInt32.le_iff_toNat_le.mpr this.2⟩
+
+example : grow 33 128 0xFFFFFFFF = none := by decide
+example : grow 33 128 1000 = some 1024 := by decide
+
+/-! ## the unchanged comparisons violate the property (witnesses, evaluated by the kernel) -/
+
+/-- F1, `mbuf_get_bytes`: `read_pos + len > write_pos` wraps — with `read_pos = 1`,
+`len = UINT_MAX` the call succeeds and hands out 4 GiB from a 2-byte buffer -/
+theorem get_bytes_old_counterexample :
+    ¬ ∀ (b : Buf) (len : UInt32), inv b = true →
+        accAllOk b (getBytesOld b len).buf (getBytesOld b len).acc = true := by
+  intro h
+  exact absurd (h ⟨[1, 2], 1, 2, 2, true, true, false⟩ 0xFFFFFFFF (by decide)) (by decide)
+
+/-- … and leaves `read_pos = 0 … ` behind a successful "read" of `UINT_MAX` bytes: the cursor
+invariant survives only by accident, the access does not -/
+theorem get_bytes_old_succeeds : (getBytesOld ⟨[1, 2], 1, 2, 2, true, true, false⟩ 0xFFFFFFFF).ok = true := by
+  decide
+
+/-- F1, `mbuf_write`/`mbuf_fill`: `write_pos + len > alloc_len` wraps — `write_pos = 1`,
+`len = UINT_MAX` skips the room check on a fixed 2-byte buffer -/
+theorem fill_old_counterexample :
+    ¬ ∀ (b : Buf) (byte : UInt8) (len : UInt32), inv b = true →
+        accAllOk b (fillOldFixed b byte len).buf (fillOldFixed b byte len).acc = true := by
+  intro h
+  exact absurd (h ⟨[0, 0], 0, 1, 2, false, true, false⟩ 0 0xFFFFFFFF (by decide)) (by decide)
+
+/-- F1, `mbuf_cut`: `ofs + len < write_pos` wraps — `ofs = 5`, `len = UINT_MAX − 2` moves 8
+bytes to offset 5 of a 10-byte buffer and leaves `write_pos = 13` -/
+theorem cut_old_counterexample :
+    ¬ ∀ (b : Buf) (ofs len : UInt32), inv b = true →
+        accAllOk b (cutOld b ofs len).buf (cutOld b ofs len).acc = true ∧
+        inv (cutOld b ofs len).buf = true := by
+  intro h
+  have := h ⟨[0, 1, 2, 3, 4, 5, 6, 7, 8, 9], 0, 10, 10, false, true, false⟩ 5 0xFFFFFFFD (by decide)
+  exact absurd this.1 (by decide)
+
+/-- F01b, `mbuf_cut` never moved the read cursor: write 10, read 8, `cut(0, 5)` leaves
+`read_pos = 8 > write_pos = 5`, after which `avail_for_read` is about 4 · 10⁹ -/
+theorem cut_old_cursor_counterexample :
+    ¬ ∀ (b : Buf) (ofs len : UInt32), inv b = true → inv (cutOld b ofs len).buf = true := by
+  intro h
+  exact absurd (h ⟨[0, 1, 2, 3, 4, 5, 6, 7, 8, 9], 8, 10, 10, false, true, false⟩ 0 5 (by decide))
+    (by decide)
+
+/-- F01c, `mbuf_get_uint64be` with 6 bytes left: returns false with `read_pos` moved by 4 -/
+theorem get_uint64be_old_counterexample :
+    ¬ ∀ (b : Buf), inv b = true → (getU64Old b).ok = false → (getU64Old b).buf = b := by
+  intro h
+  exact absurd (h ⟨[1, 2, 3, 4, 5, 6], 0, 6, 6, true, true, false⟩ (by decide) (by decide)) (by decide)
+
+/-- F1, `mbuf_make_room`: for a request beyond 2^31 the unchanged loop
+`while (new_alloc < need) new_alloc *= 2` started at 128 is still running after any number
+of iterations (`new_alloc` wraps to 0 after 25 doublings and stays there) -/
+theorem make_room_old_never_terminates (k : Nat) : growOldIter 0x80000001 k 128 = none :=
+  growOld_never k 7
+
+example : growOldIter 1000 10 128 = some 1024 := by decide
+
+end UsualProps.C12
